@@ -426,8 +426,8 @@ impl E2Run for Link {
 
     fn budget(&self, tier: &Tier) -> (u64, u64) {
         match tier {
-            Tier::Quick => (20_000, 60),
-            Tier::Thorough => (3_000_000, 3000),
+            Tier::Quick => (100_000, 50),
+            Tier::Thorough => (6_000_000, 3000),
         }
     }
 
